@@ -133,6 +133,16 @@ def run_core_shard(sh):
     violation = None
     want = "cdc" if sh["idx"] % 3 else "both"
     for ci, cfg in enumerate(draw_examples(coremc.core_cfg(want), sh["ncfg"], sh["seed"])):
+        try:
+            coremc.get_sim(cfg, "fast")
+        except HarnessError:
+            raise
+        except Exception as e:
+            # a configuration that the sources refuse to elaborate cannot be simulated; it is counted (evidence) and the shard goes on with its
+            # other configurations (the generator only draws combinations get_port documents, so on the unchanged tree this stays 0)
+            col.stats["configurations_that_do_not_elaborate"] = col.stats.get("configurations_that_do_not_elaborate", 0) + 1
+            continue
+
         def t(stim, cfg=cfg):
             r = coremc.run(cfg, stim)
             fs = coremc.oracle(r, "C08")
